@@ -557,7 +557,9 @@ class ForeignTrapVariables(object):
             r1, w1 = compile_v({'V1TEST-MIB': v1, 'A-MIB': amib}, ['V1TEST-MIB'], backend)
             r2, w2 = compile_v({'V2TEST-MIB': v2, 'A-MIB': amib}, ['V2TEST-MIB'], backend)
             if r2.get('V2TEST-MIB') != 'compiled':
-                raise core.InternalError('the SMIv2 transliteration does not compile: %r\n%s' % (getattr(r2.get('V2TEST-MIB'), 'error', None), v2))
+                # a valid SMIv2 text that names symbols of a foreign module is refused: nothing to be equivalent to
+                vs.append(('%s|%s|the-SMIv2-form-is-not-compiled' % (sig, backend), '%r\n%s' % (getattr(r2.get('V2TEST-MIB'), 'error', None), v2)))
+                continue
             if r1.get('V1TEST-MIB') != 'compiled':
                 vs.append(('%s|%s|not-compiled' % (sig, backend), '%r\n%s' % (getattr(r1.get('V1TEST-MIB'), 'error', None), v1)))
                 continue
